@@ -17,9 +17,12 @@ MAX_ATOMS = 14
 
 
 class Pred:
-    def __init__(self, interp):
+    def __init__(self, interp, poly=None):
+        """poly: optional PolyFacet; comparison atoms are then keyed by the normal form of
+        (rhs - lhs), so  a<b,  b>a,  0<b-a,  2a<2b  are one atom"""
         self.I = interp
         self.g = interp.g
+        self.poly = poly
         self.memo: Dict[int, tuple] = {}
         self.atoms: Dict[tuple, Tuple[str, Optional[Node], Optional[Node]]] = {}
 
@@ -31,7 +34,41 @@ class Pred:
             self.memo[n.id] = f
         return f
 
+    def _poly_atom(self, kind, a: Node, b: Node):
+        P = self.poly
+        try:
+            from .poly import ONE, Val, pkey
+            va, vb = P.of(a), P.of(b)
+            d = P.add(Val(vb.rat), Val(va.rat), -1)
+        except Exception:
+            return None
+        if d is None or d.rat.den != ONE:
+            return None
+        num = d.rat.num
+        if not num:
+            return ("const", kind == "eq")
+        c0 = d.rat.is_const()
+        if c0 is not None:
+            return ("const", (c0 > 0) if kind == "lt" else (c0 == 0))
+        first = sorted(num.items())[0]
+        c = first[1]
+        sc = abs(c)
+        x = {m: v / sc for m, v in num.items()}
+        if c < 0:
+            x = {m: -v for m, v in x.items()}
+        key = pkey(x)
+        if kind == "lt":
+            ak = ("pos" if c > 0 else "neg", key)
+        else:
+            ak = ("zero", key)
+        self.atoms.setdefault(ak, (kind, a, b))
+        return ("atom", ak)
+
     def _atom(self, kind, a: Node, b: Optional[Node] = None):
+        if self.poly is not None and kind in ("lt", "eq") and b is not None:
+            r = self._poly_atom(kind, a, b)
+            if r is not None:
+                return r
         va = self.g.vn(a)
         if kind == "lt":
             key = ("lt", va, self.g.vn(b))
@@ -132,6 +169,11 @@ class Pred:
                 eq = ("eq", min(a[1], a[2]), max(a[1], a[2]))
                 if eq in idx:
                     excl.append((a, eq))
+            if a[0] in ("pos", "neg", "zero"):
+                for other in ("pos", "neg", "zero"):
+                    o = (other, a[1])
+                    if other != a[0] and o in idx and idx[a] < idx[o]:
+                        excl.append((a, o))
         out = []
         for bits in itertools.product((False, True), repeat=len(atoms)):
             env = dict(zip(atoms, bits))
@@ -167,6 +209,8 @@ class Pred:
     def show_atom(self, key) -> str:
         kind, a, b = self.atoms[key]
         S = lambda x: self.g.show(x, 3)
+        if key[0] in ("pos", "neg", "zero"):
+            return f"{S(a)} {'<' if kind == 'lt' else '=='} {S(b)}"
         if kind == "lt":
             return f"{S(a)} < {S(b)}"
         if kind == "eq":
